@@ -3,7 +3,7 @@
     the path word (Go: bmtree.NewPath(bits left-aligned in h, len, h)). *)
 From Coq Require Import ZArith List Bool String.
 From Low Require Import Lib.Bits Lib.BitSeq Lib.Lex Lib.Bytes Lib.Val
-  Spec.Bmtree Spec.PathSpec Model.BmtreePath Model.BmtreePathStr.
+  Spec.Bmtree Spec.PathSpec Model.BmtreePath Model.BmtreePathStr Run.WideC10.
 Import ListNotations.
 Open Scope string_scope.
 Open Scope Z_scope.
@@ -19,7 +19,7 @@ Definition c10_dom (h : Z) (q : node) : bool := (0 <=? h) && (h <=? 32) && (zlen
 
 Definition c10_word (h : Z) (q : node) : Z := NewPath (valL (Z.to_nat h) q) (zlen q) h.
 
-Definition ops_C10 : list opdef := [
+Definition ops_C10_core : list opdef := [
   (* observation: [word, PathLen, PathHeight, PathBits, PathMask, PathStr] *)
   {| op_name := "bmtree.NewPath/fields";
      op_run := fun a => match a with
@@ -53,3 +53,6 @@ Definition ops_C10 : list opdef := [
            | _, _, _ => false end
        | _ => false end |}
 ].
+
+(** core operations + the widening round (Run/WideC10.v) *)
+Definition ops_C10 : list opdef := (ops_C10_core ++ ops_C10_wide)%list.
